@@ -24,7 +24,8 @@ THEOREMS = ["C03_excitation_formula", "C03_recombination_uses_next_charge", "C03
             "C03_brems_bin_average_partial", "C03_zero_when_nonpositive", "C03_nonneg",
             "C03_thermalcx_nonneg", "C03_linear_in_density", "C03_history_independent",
             "C03_gq_refines_rule", "C03_gq_laws", "C03_brems_spectrum_nonneg", "C03_brems_vacuum_zero",
-            "C03_gaunt_branch_spec", "C03_emission_adds", "C03_rnd_bounds", "C03_cache_populates", "C03_brems_gaunt_cache"]
+            "C03_gaunt_branch_spec", "C03_emission_adds", "C03_rnd_bounds", "C03_cache_populates", "C03_brems_gaunt_cache", "C03_guards_separate",
+            "C03_gq_low_order_exact", "C03_gq23_exact_on_cubics", "C03_gq2_envelope_partial", "C03_total_power_linear_isotope"]
 
 GL_ORDER = 8
 CONST_ORDER = ["RECIP_2_PI", "RECIP_4_PI", "DEGREES_TO_RADIANS", "RADIANS_TO_DEGREES", "ATOMIC_MASS", "ELEMENTARY_CHARGE",
@@ -286,6 +287,77 @@ def make_sequence(impl, rng, base, length=SEQ_LEN):
     return steps
 
 
+def sign_patterns(q):
+    """all sign combinations the guards have to be exercised with: all positive; each quantity alone negative / 0.0 / -0.0;
+    every pair negative together; all negative; every ordered pair (one exactly zero, another negative)"""
+    pats = [tuple("+" * q)]
+    for i in range(q):
+        for sgn in ("-", "0", "-0"):
+            pats.append(tuple(sgn if k == i else "+" for k in range(q)))
+    for i in range(q):
+        for j in range(i + 1, q):
+            pats.append(tuple("-" if k in (i, j) else "+" for k in range(q)))
+    pats.append(tuple("-" * q))
+    for i in range(q):
+        for j in range(q):
+            if i != j:
+                pats.append(tuple("0" if k == i else "-" if k == j else "+" for k in range(q)))
+    return pats
+
+
+def signed(v, sgn):
+    return {"+": abs(v), "-": -abs(v), "0": 0.0, "-0": -0.0}[sgn]
+
+
+def sign_matrix_sequence(impl, rng, kind, style):
+    """ONE model instance evaluated at one point per sign pattern (shuffled) of the quantities that have their own guard in
+    the code: electron density and temperature, the target / receiver density, a donor density (thermal CX), both charge
+    states and two hydrogen isotopes (total power), two ion densities (bremsstrahlung).  Every step is also run on a fresh
+    instance (fresh-object comparison) and compared with the model inside Coq."""
+    e = rng.choice([3, 4, 5, 6])                  # helium, carbon, nitrogen, neon
+    c = rng.randint(0, impl.znum(e) - 1)
+    ne0, te0 = gen_density(rng, style, False), gen_temperature(rng, style, False)
+    d = lambda: gen_density(rng, style, False)
+    t = lambda: gen_temperature(rng, style, False)
+    if kind in (1, 2, 3):
+        tc = c if kind == 1 else c + 1
+        oc = c + 1 if kind == 1 else c
+        base_comp = [(e, tc, d(), t()), (e, oc, d(), t()), (1, 0, d(), t()), (0, 1, d(), t())]
+        guarded = [("ne",), ("te",), ("comp", 0)] + ([("comp", 2)] if kind == 3 else [])
+        base = gen_forms(rng, {"kind": kind, "style": style, "cfg": dict(gen_cfg(rng, style), sgn=1.0),
+                               "line": (e, c, rng.randrange(len(impl.TRANS))), "ne": ne0, "te": te0, "comp": base_comp})
+    elif kind == 4:
+        base_comp = [(e, c, d(), t()), (e, c + 1, d(), t()), (0, 0, d(), t()), (1, 0, d(), t()), (1, 1, d(), t())]
+        guarded = [("ne",), ("te",), ("comp", 0), ("comp", 1), ("comp", 2), ("comp", 3)]
+        minw, maxw, bins = gen_window(rng)
+        base = gen_forms(rng, {"kind": 4, "style": style, "cfg": dict(gen_cfg(rng, style, total=True), sgn=1.0, missing=0),
+                               "elem": e, "charge": c, "ne": ne0, "te": te0, "comp": base_comp, "minw": minw, "maxw": maxw, "bins": bins})
+    else:
+        base_comp = [(e, max(c, 1), d(), t()), (1, 1, d(), t()), (1, 0, d(), t())]
+        guarded = [("ne",), ("te",), ("comp", 0), ("comp", 1)]
+        base = {"kind": 6, "style": style, "gaunt": gen_gaunt(rng), "ne": ne0, "te": te0, "comp": base_comp,
+                "tight": False, "via_provider": rng.random() < 0.7, "integrator_by": "ctor", "cfg": {}}
+        base.update(gen_brems_window(rng))
+        base = gen_forms(rng, base)
+        del base["cfg"]
+    base.pop("dup", None)
+    pats = sign_patterns(len(guarded))
+    rng.shuffle(pats)
+    steps = []
+    for pat in pats:
+        st = dict(base, op="none", sign_pattern="".join("(%s)" % p for p in pat))
+        comp = list(base_comp)
+        for g, sgn in zip(guarded, pat):
+            if g[0] == "comp":
+                ee, cc, nn, tt = comp[g[1]]
+                comp[g[1]] = (ee, cc, signed(nn, sgn), tt)
+            else:
+                st[g[0]] = signed(base[g[0]], sgn)
+        st["comp"] = comp
+        steps.append(st)
+    return steps
+
+
 def gen_gaunt(rng):
     return (dyadic(rng, 0.5, 2, 4), dyadic(rng, 0, 0.5, 5), dyadic(rng, 0, 1, 4) / 1024, dyadic(rng, 0, 1, 4) / 4096)
 
@@ -335,9 +407,15 @@ def gen_gaunt_case(rng, consts):
         u_d, g2_d = ph / (te * wvl), z * z * consts["RYDBERG_CONSTANT_EV"] / te
         ug = [2.0 ** k for k in sorted(rng.sample(range(-12, 13), 5))]
         gg = [2.0 ** k for k in sorted(rng.sample(range(-20, 21), 5))]
-        where = rng.choice(["none", "umax", "umin", "g2max", "g2min"])
+        where = rng.choice(["none", "umax", "umin", "g2max", "g2min", "knot", "knot"])
         val = u_d if where[0] == "u" else g2_d
-        if where != "none" and val > 0:
+        if where == "knot" and z != 0:
+            # u and gamma2 exactly on the interior knot (2, 2) of the table
+            ug = sorted(u_d * 2.0 ** k for k in (-6, -3, 0, 2, 5))
+            gg = sorted(g2_d * 2.0 ** k for k in (-7, -2, 0, 3, 6))
+        elif where == "knot":
+            where = "none"
+        elif where != "none" and val > 0:
             # the table bound sits exactly on the case's u / gamma2, or one ulp below / above it
             val = rng.choice([val, float(np.nextafter(val, 0.0)), float(np.nextafter(val, np.inf))])
             grid = sorted(val * 2.0 ** (-k if where.endswith("max") else k) for k in (0, 2, 5, 7, 9))
@@ -666,7 +744,19 @@ def run(ctx):
     tables = impl.read_source_tables(REPO)
     gq_defaults = impl.probe_gq_defaults()
     orc = Oracles(impl, consts)
-    tie = ("Require Import Cherab.Common.Qx Cherab.Model.C03_Passive Cherab.Model.C03_Brems Cherab.Model.C03_Check.\n"
+    try:
+        guards = impl.read_guards(REPO)
+        guard_error = None
+    except ValueError as exc:
+        guards, guard_error = None, str(exc)
+    ctx.obligation("guard-structure translator reads the emission() functions (every `if` of a known form, every test on a sampled quantity)",
+                   "tie", guards is not None, guard_error or "")
+    guard_txt = ""
+    if guards is not None:
+        guard_txt = ("Definition gen_guards : list (list guard) := [%s]%%Z.\n"
+                     "Lemma guards_ok : tables_eqb gen_guards documented_guards = true.\nProof. vm_compute. reflexivity. Qed.\n"
+                     % "; ".join("[" + "; ".join("(%d, %d, %d)" % g for g in t) + "]" for t in guards))
+    tie = ("Require Import Cherab.Common.Qx Cherab.Model.C03_Passive Cherab.Model.C03_Brems Cherab.Model.C03_Guards Cherab.Model.C03_Check.\n"
            "Open Scope Q_scope.\n"
            "Definition gen_consts : consts := %s.\n"
            "Lemma consts_ok : consts_wf gen_consts = true.\nProof. vm_compute. reflexivity. Qed.\n"
@@ -675,21 +765,22 @@ def run(ctx):
            "Lemma source_tables_ok : source_tables_wf %s %s %d%%nat %d%%nat %s = true.\nProof. vm_compute. reflexivity. Qed.\n"
            % (orc.coq_consts(), coq_ql([consts[n] for n in CONST_ORDER]),
               "[" + "; ".join(zlit(h) for h in tables["hyd"]) + "]%Z", qz(tables["euler_gamma"]),
-              gq_defaults["min_order"], gq_defaults["max_order"], qz(gq_defaults["rtol"])))
+              gq_defaults["min_order"], gq_defaults["max_order"], qz(gq_defaults["rtol"])) + guard_txt)
     tie_path = ctx.write_gen("Consts.v", tie)
     ok, out = coqc(tie_path)
     ctx.obligation("Gen tie: constants.pyx gives the CODATA 2018 values, RECIP_4_PI and M_PI of the model (consts_ok) and every "
                    "other constant of the file its documented value (consts_all_ok); hydrogen-isotope loop, EULER_GAMMA and the default "
-                   "integrator parameters re-read from the sources / probed (source_tables_ok)", "tie", ok, out)
+                   "integrator parameters re-read from the sources / probed (source_tables_ok); the guard structure of the emission() functions "
+                   "(which quantity is tested with which operator, in which order, with which effect) equals the table of Model/C03_Guards.v (guards_ok)", "tie", ok, out)
     consts_bad = not ok
 
     # ---- cases ----------------------------------------------------------------------------------------
-    n_line = 42 if quick else 900          # per kind and style
-    n_total = 48 if quick else 1000        # per style
-    n_bfn = 24 if quick else 500
-    n_brm = 15 if quick else 300
+    n_line = 33 if quick else 900          # per kind and style
+    n_total = 36 if quick else 1000        # per style
+    n_bfn = 18 if quick else 500
+    n_brm = 12 if quick else 300
     n_rfn = 15 if quick else 200
-    n_gnt = 30 if quick else 600
+    n_gnt = 24 if quick else 600
     # sequences: one model instance evaluated at SEQ_LEN points of one plasma (single-point kinds: sequences of one)
     seqs = []
     nseq = lambda n: -(-n // SEQ_LEN)
@@ -708,6 +799,13 @@ def run(ctx):
                  for _ in range(nseq(n_brm))]
     seqs += [[gen_radfn_case(rng)] for _ in range(n_rfn)]
     seqs += [[gen_gaunt_case(rng, consts)] for _ in range(n_gnt)]
+    # the sign matrix of the guarded quantities, for every model, on one instance each (both tiers)
+    for _ in range(1 if quick else 6):
+        for kind in (1, 2, 3, 4, 6):
+            seqs.append(sign_matrix_sequence(impl, rng, kind, mk_style("dyadic")))
+            if not quick:
+                seqs.append(sign_matrix_sequence(impl, rng, kind, styles("real")))
+    n_sign_cases = sum(len(sq) for sq in seqs if sq[0].get("sign_pattern"))
     # corpus of past disagreements runs first
     corpus_dir = os.path.join(os.path.dirname(os.path.dirname(os.path.abspath(__file__))), "corpus", "C03")
     corpus = []
@@ -918,7 +1016,11 @@ def run(ctx):
             okey = ["zero", "classical", "born", "interpolated"][code] + ("@" + case.get("boundary", "none") if case.get("boundary", "none") != "none" else "")
             if obs["range"] != ((b[0], b[1]), (b[2], b[3])):
                 fs.append({"claim": "u_range / gamma2_range report the bounds of the table", "observed": obs["range"]})
-            if "error" in obs or "twin_error" in obs:
+            if case.get("boundary") == "knot" and "error" not in obs:
+                texts.append("check_gaunt_knot gen_consts %s %s %s %s %s %s %s %s %s %s %s %s" % (
+                    qz(consts["RYDBERG_CONSTANT_EV"]), qz(b[0]), qz(b[1]), qz(b[2]), qz(b[3]), qz(case["z"]), qz(case["te"]),
+                    qz(case["wvl"]), qz(obs["u_d"]), qz(obs["g2_d"]), qz(case["values"][2][2]), qz(obs["value"])))
+            elif "error" in obs or "twin_error" in obs:
                 texts.append("true")
                 if "error" in obs and "twin_error" not in obs:
                     fs.append({"claim": "the Gaunt factor is defined for every z, temperature > 0 and wavelength > 0",
@@ -1010,7 +1112,7 @@ def run(ctx):
                "Definition results : list bool :=\n  %s.\nEval vm_compute in (failing results).\n"
                % (orc.coq_consts(), "\n  ++ ".join("(%s)" % t for t, _ in mine)))
         files.append((ctx.write_gen("cases_%03d.v" % si, txt), ids))
-    res = coqc_many([f for f, _ in files], timeout=1200)
+    res = coqc_many([f for f, _ in files], timeout=1800, jobs=int(os.environ.get("C03_COQ_JOBS", "4")))
     diff_cases = []
     for f, ids in files:
         ok, out = res[f]
@@ -1038,6 +1140,9 @@ def run(ctx):
                       {k: v for k, v in f.items() if k != "case_index"}, found=True)
         if len(seen) >= 5:
             break
+    if guard_error and not other:
+        ctx.violation("c03:guard-structure", "the guard structure of an emission() function is no longer the documented one: " + guard_error,
+                      {"translator": guard_error}, found=False)
     if consts_bad and not other:
         ctx.violation("c03:constants", "constants.pyx no longer gives the CODATA 2018 values / RECIP_4_PI the model uses (Gen tie lemma consts_ok fails)",
                       {"constants": {k: v for k, v in consts.items()}}, found=False)
@@ -1058,7 +1163,7 @@ def run(ctx):
         "distribution": dict(dist, styles="half dyadic (products exact in double), half realistic magnitudes (1e15..1e21 m^-3, 0.1..1e4 eV)",
                              sign_probes=n_neg, corpus_cases=len(corpus), mutation_ops_between_points=op_counts,
                              attachment_routes=route_counts, fresh_object_comparisons=n_fresh_cmp,
-                             second_order_probes=n_probes, gaunt_factor_cases=n_gaunt, gq_cache_last_order=gq_orders, gq_nonconvergent_cases_truncated=n_nonconv,
+                             second_order_probes=n_probes, gaunt_factor_cases=n_gaunt, sign_matrix_cases=n_sign_cases, gq_cache_last_order=gq_orders, gq_nonconvergent_cases_truncated=n_nonconv,
                              second_calls_into_prefilled_spectrum=n_rebased, gaunt_interpolator_edge_cases=len(edge_cases),
                              sequences=dict(transitions, length=SEQ_LEN,
                              rule="line, total-power and bremsstrahlung cases are consecutive points of one plasma evaluated on ONE "
